@@ -30,8 +30,8 @@ SCALARS = {
     "any": {},
     "strenum": {"$ref": "#/components/schemas/StrEnum"},
     "intenum": {"$ref": "#/components/schemas/IntEnum"},
-    "inline-enum": {"type": "string", "enum": ["x", "y z"]},
-    "nullable-enum": {"type": "string", "enum": ["p", "q", None], "nullable": True},
+    "inline-enum": {"type": "string", "enum": ["x", "y z", 'q"uote']},
+    "nullable-enum": {"type": ["string", "null"], "enum": ["p", "q", None]},
     "const": {"const": "fixed"},
     "nullable-str": {"type": "string", "nullable": True},
     "nullable-int": {"type": "integer", "nullable": True},
@@ -57,7 +57,7 @@ def _class_name(kind, req, dflt):
 
 def document(openapi="3.0.3"):
     comps = {
-        "StrEnum": {"type": "string", "enum": ["a", "B c", "1st", ""]},
+        "StrEnum": {"type": "string", "enum": ["a", "B c", "1st", "", 'say "hi"', "it's"]},
         "IntEnum": {"type": "integer", "enum": [-4, 0, 2]},
         "Leaf": {"type": "object", "required": ["x"], "properties": {"x": {"type": "integer"}, "y-y": {"type": "string"}},
                  "additionalProperties": False},
@@ -184,3 +184,127 @@ def roundtrip_contract(pkg, components, class_name, module_name, label):
                 native_target="pyvc.fragnative:roundtrip_violation")
     c = FnContract(f"{pkg.name}.models.{module_name}:{class_name}.from_dict", [case])
     return c
+
+
+# ---- C10 / C14: what happens at the edges of the wire domain ----------------------------------------------------------
+
+def tristate_contract(pkg, components, class_name, module_name, kind, required, has_default, label, outside=True):
+    """absent / null / present for the single property `a-prop` of a schematic model (C10), and rejection of values
+    outside an enum / const (C14)."""
+    import z3 as _z3
+    from pyvc.symexec import SStr as _SStr
+
+    schema = components[class_name]["properties"]["a-prop"]
+
+    def resolved(I):
+        wb = fragments.WireBuilder(I, components)
+        return wb, wb.resolve(schema)
+
+    def nullable(rs):
+        if rs.get("nullable"):
+            return True
+        if isinstance(rs.get("type"), list) and "null" in rs["type"]:
+            return True
+        if "enum" in rs and None in rs["enum"]:
+            return True
+        return any(m == {"type": "null"} for m in (rs.get("oneOf") or rs.get("anyOf") or []))
+
+    def make(I):
+        mod = pkg.module(f"models.{module_name}")
+        cls = getattr(mod, class_name)
+        wb, rs = resolved(I)
+        src = SDict()
+        state = "absent"
+        if I.branch_free():
+            state = "absent"
+        elif I.branch_free():
+            state = "null"
+            src.items["a-prop"] = None
+        elif I.branch_free():
+            state = "present"
+            src.items["a-prop"] = wb.value(schema, "v", 0)
+        else:
+            state = "outside"
+            if not outside:
+                from pyvc.symexec import Infeasible
+                raise Infeasible()
+            # a JSON string that is not one of the listed values / not the constant
+            vals = rs.get("enum") if "enum" in rs else ([rs["const"]] if "const" in rs else None)
+            if vals is None or not all(isinstance(v, str) or v is None for v in vals):
+                from pyvc.symexec import Infeasible
+                raise Infeasible()
+            s = _z3.Const("outside_value", _z3.StringSort())
+            for v in vals:
+                if v is not None:
+                    I.assume(s != _z3.StringVal(v))
+            src.items["a-prop"] = _SStr(s)
+
+        def target(I, args, kwargs):
+            return I.call(I.get_attr(cls, "from_dict"), [src], {})
+        return SFunc("model", target), [], {}, {"state": state, "nullable": nullable(rs), "mod": mod}
+
+    def attr(ctx):
+        return ctx.value.fields["a_prop"]
+
+    def clause(ctx):
+        I = ctx.I
+        st = ctx.inputs["state"]
+        unset = pkg.module("types").UNSET
+        if st == "absent":
+            if required:
+                return ctx.kind == "raise" and ctx.value.cls is KeyError       # not a silent default
+            return ctx.kind == "return" and attr(ctx) is unset
+        if st == "null":
+            if ctx.inputs["nullable"]:
+                return ctx.kind == "return" and attr(ctx) is None
+            return True        # null for a non-nullable schema is outside the quantifier
+        if st == "present":
+            if ctx.kind != "return":
+                return False
+            v = attr(ctx)
+            return v is not unset and (v is not None or ctx.inputs["nullable"])
+        if st == "outside":
+            return ctx.kind == "raise"          # never passed through
+        return False
+
+    if kind == "nullable-enum":
+        known = ["C14-K2-nullable-enum-passthrough"]
+        restrict = lambda inputs, I: z3.BoolVal(inputs["state"] != "outside")
+    else:
+        known, restrict = [], None
+    cl = Clause("absent-null-present-outside", clause, any_outcome=True, native="result is not None", known=known, restrict=restrict,
+                statement="absent optional key -> attribute is UNSET; absent required key -> KeyError; null -> None iff the "
+                          "schema is nullable; present -> a value that is neither UNSET nor (unless nullable) None; a "
+                          "string outside an enum/const -> an exception, never passed through", props=["C10", "C14"])
+    case = Case(label, make, [cl], raises=(Exception,), props=["C10", "C14"])
+    return FnContract(f"{pkg.name}.models.{module_name}:{class_name}.from_dict", [case])
+
+
+def signature_obligations(pkg, cases, version, prop="C10"):
+    """constructor signatures of the generated classes: required and no default <=> mandatory argument; optional
+    without default <=> default UNSET (read natively from the imported class: a syntactic obligation on the output)"""
+    import inspect
+    from openapi_python_client import utils
+    from pyvc.core import Obligation, PROVED, REFUTED
+    out = []
+    unset = pkg.module("types").UNSET
+    for name, kind, req, dflt in cases:
+        cls = getattr(pkg.module("models." + utils.snake_case(name)), name)
+        p = inspect.signature(cls).parameters.get("a_prop")
+        ob = Obligation(id=f"{prop}.F.{name}.signature[{version}]", props=[prop], unit=f"model.py.jinja class body for {name}",
+                        where="openapi_python_client/templates/model.py.jinja", backend="native reflection of generated code",
+                        formula="required and no default <=> mandatory constructor argument; optional and no default <=> "
+                                "default is UNSET; declared default <=> that default")
+        if p is None:
+            ob.status, ob.detail = REFUTED, "constructor has no parameter a_prop"
+        else:
+            if req and not dflt:
+                ok = p.default is inspect.Parameter.empty
+            elif not dflt:
+                ok = p.default is unset
+            else:
+                ok = p.default is not inspect.Parameter.empty and p.default is not unset
+            ob.status = PROVED if ok else REFUTED
+            ob.detail = f"default of a_prop is {p.default!r}"
+        out.append(ob)
+    return out
